@@ -254,7 +254,7 @@ def run(pid, tier):
 def run_into(chk, pid, binary, sc, tier):
     if True:
         kf = replay_findings(pid, binary, sc)
-        pool = "<<1,2,3,4,5,6,7,8,9,10,11,12,13,14,15,16,17,18,19,20>>"
+        pool = "<<1,2,3,4,5,6,7,8,9,10,11,12,13,14,15,16,17,18,19,20,21>>"
         maxfiles = 3 if tier == "quick" else 4
         if tier == "thorough":
             pool = "<<1,2,3,4,5,6,7,8,10,11,12,13,15,16,18,19,20>>"
@@ -312,7 +312,7 @@ def random_sets(n, seed):
                 rels = rng.sample(["r", "s", "x", "y", "R", "S"], rng.randint(0, 3))
                 decls.append({"kind": kind, "name": name, "rels": rels})
             conds = rng.sample(["c", "d", "e", "C"], rng.choice([0, 0, 1, 1, 2]))
-            files.append({"name": "f%d.fga" % (i + 1), "header": header, "decls": decls, "conds": conds, "loose": rng.random() < 0.4, "eol": "\r\n" if rng.random() < 0.3 else "\n", "pad": rng.random() < 0.15})
+            files.append({"name": "f%d.fga" % (i + 1), "header": header, "decls": decls, "conds": conds, "loose": rng.random() < 0.4, "eol": "\r\n" if rng.random() < 0.3 else "\n", "pad": rng.random() < 0.15, "cont": rng.random() < 0.15})
         # make most sets plausible: the first file declares the popular types
         if rng.random() < 0.7:
             files[0] = {"name": "f1.fga", "header": "m1", "decls": [{"kind": "type", "name": "t", "rels": rng.sample(["r"], rng.randint(0, 1))},
